@@ -26,8 +26,8 @@ func universe() []ty {
 		tMap(s, i), tMap(i, s), tMap(n1, i),
 		tChan("both", i), tChan("send", i), tChan("recv", i), tChan("both", s), tChan("both", n1),
 		ty{K: "func"}, ty{K: "func", Args: []sty{i}, Rets: []sty{i}}, ty{K: "func", Args: []sty{n1}, Rets: []sty{i}},
-		tStruct(0), tStruct(1), tStruct(2),
-		tIface(0), tIface(1), tIface(2))
+		tStruct(0), tStruct(1), tStruct(2), tStruct(3),
+		tIface(0), tIface(1), tIface(2), tIface(3))
 	return u
 }
 
@@ -242,6 +242,12 @@ func enumProbes(rng *rand.Rand, full bool, keep float64) []probe {
 			}), a, b)
 			add("conv", "", mk([]operand{b}, func(es []*expr, nv int) []*stmt {
 				return []*stmt{{K: "define", E: &expr{K: "conv", T: &dt, A: es[0]}}}
+			}), a, b)
+			add("assert", "", mk([]operand{b}, func(es []*expr, nv int) []*stmt {
+				return []*stmt{{K: "define", E: &expr{K: "assert", T: &dt, A: es[0]}}}
+			}), a, b)
+			add("assert-commaok", "", mk([]operand{b}, func(es []*expr, nv int) []*stmt {
+				return []*stmt{{K: "defineok", T: &dt, E: es[0]}}
 			}), a, b)
 			add("send", "", mk([]operand{a, b}, func(es []*expr, nv int) []*stmt {
 				return []*stmt{{K: "send", C: es[0], E: es[1]}}
